@@ -98,6 +98,7 @@ package io
 //@   loop 1 invariant old(dec.Error) != nil ==> dec.Error != nil
 //@   loop 1 invariant arr(dec.buf) == old(arr(dec.buf)) || isnew(arr(dec.buf))
 //@   loop 1 invariant dec.reader != nil ==> forall(j, off(data), off(data) + len(data), mem(data, j) == ghost.rstream[ival(dec.reader)][lp0 - off(data) + j])
+//@   loop 1 invariant dec.reader == nil ==> forall(j, off(data), off(data) + len(data), mem(data, j) == old(mem(dec.buf, off(dec.buf) + dec.head - off(data) + j)))
 //@   ensures [stream_content] dec.reader != nil ==> forall(j, off(data), off(data) + len(data), mem(data, j) == ghost.rstream[ival(dec.reader)][lp0 - off(data) + j])
 //@   ensures [memory_content] dec.reader == nil ==> forall(j, off(data), off(data) + len(data), mem(data, j) == old(mem(dec.buf, off(dec.buf) + dec.head - off(data) + j)))
 //@   ensures [never_more_than_asked] len(data) <= n0 || (n0 < 0 && len(data) == 0)
